@@ -294,6 +294,12 @@ Definition with_iter_ctx (st : istate) (it : siter) (c : ctx) (cache : list dent
   {| i_ctx := c; i_iter := it; i_outidx := i_outidx st; i_prev := i_prev st;
      i_cache := cache; i_log := i_log st |}.
 
+(* self.expand_x(); self.expand_c();  (the fuel of expand_x is one more than the row is wide:
+   every round replaces one X of the top row, see proofs/ExpandProof.v) *)
+Definition prepare_cache (cache : list dentries) : R rterr (list dentries) :=
+  let width := match cache with [] => O | r :: _ => length (de_entries r) end in
+  rbind (expand_x (S width) cache) expand_c.
+
 Definition get_row (fuel : nat) (st : istate) : getrow_result :=
   let refill :=
     match i_cache st with
@@ -312,8 +318,7 @@ Definition get_row (fuel : nat) (st : istate) : getrow_result :=
   match refill with
   | inr r => r
   | inl st1 =>
-      let width := match i_cache st1 with [] => O | r :: _ => length (de_entries r) end in
-      match rbind (expand_x (S width) (i_cache st1)) expand_c with
+      match prepare_cache (i_cache st1) with
       | Ok [] => GRPanic 37%N
       | Ok (row :: rest) =>
           let changed := check_changed_entries (i_prev st1) (de_entries row) in
